@@ -141,6 +141,7 @@ pub fn main(args: &[String]) -> i32 {
     {
         let _aw = yrs::sync::Awareness::with_clock(yrs::Doc::with_client_id(1), || 0u64);
     }
+    crate::arena::read_diag_env();
     match args.get(1).map(|s| s.as_str()) {
         Some("batch") => batch(args),
         Some("worker") => worker(args),
